@@ -63,6 +63,11 @@ def gen_case(rng, allow, monitor, with_consts=True):
         if F.size(f) >= 4:
             break
     defs = add_repeats(rng, decompose(rng, f))
+    if rng.random() < 0.3:
+        # an independent assertion that the main one does not reference (its nodes are in no other assertion)
+        extra = g.formula(rng.choice([1, 2, 3]))
+        k = rng.randint(0, len(defs) - 1)
+        defs = defs[:k] + [("q9", extra)] + defs[k:]
     consts = []
     cmap = {}
     if with_consts and rng.random() < 0.5:
@@ -75,32 +80,42 @@ def gen_case(rng, allow, monitor, with_consts=True):
     n = rng.randint(1, 10)
     inl = inline(defs)
     allvars = sorted({v for nm in inl for v in F.variables(inl[nm])})
+    # spelling of the interval bounds: plain numbers (default unit) or explicit units (same durations; default unit s, period 1 s)
+    unit_mode = rng.choice([None, None, None, "s", "ms", "us"])
     return {"monitor": monitor, "defs": defs, "inl": inl, "f": inl["out"], "consts": consts, "cmap": cmap, "style": style,
-            "n": n, "vars": allvars or ["a"], "data": F.gen_trace(rng, allvars or ["a"], n)}
+            "n": n, "vars": allvars or ["a"], "data": F.gen_trace(rng, allvars or ["a"], n), "unit_mode": unit_mode}
 
 
-def render_body(b, cmap):
+def bound_fn(case):
+    m = case.get("unit_mode")
+    if m is None:
+        return lambda k: str(k)
+    mult = {"s": 1, "ms": 1000, "us": 1000000}[m]
+    return lambda k: "%d%s" % (k * mult, m)
+
+
+def render_body(b, cmap, bound=lambda k: str(k)):
     def go(x):
         if x[0] == "c" and x[1] in cmap:
             return ("v", cmap[x[1]])
         return F.rebuild(x, [go(k) for k in F.children(x)])
-    return F.to_text(go(b))
+    return F.to_text(go(b), bound=bound)
 
 
 def build(case, kind, modular=True, only=None):
     """Construct and parse the specification object. `only`: name of a single assertion to build stand-alone (inlined)."""
     if only is not None:
-        text = "%s = %s" % (only, F.to_text(case["inl"][only]))
+        text = "%s = %s" % (only, F.to_text(case["inl"][only], bound=bound_fn(case)))
         spec = impl.make_spec(kind, text, case["vars"], extra_decl=[only] if only != "out" else [])
         spec.parse()
         return spec
     if not modular:
-        spec = impl.make_spec(kind, "out = " + F.to_text(case["f"]), case["vars"])
+        spec = impl.make_spec(kind, "out = " + F.to_text(case["f"], bound=bound_fn(case)), case["vars"])
         spec.parse()
         return spec
     defs = case["defs"]
     names = [nm for nm, _ in defs[:-1]]
-    lines = ["%s = %s;" % (nm, render_body(b, case["cmap"])) for nm, b in defs]
+    lines = ["%s = %s;" % (nm, render_body(b, case["cmap"], bound_fn(case))) for nm, b in defs]
     if case["style"] == "text":
         spec = impl.make_spec(kind, "\n".join(lines), case["vars"], extra_decl=names, consts=case["consts"])
     else:
@@ -110,7 +125,7 @@ def build(case, kind, modular=True, only=None):
 
 
 def spec_text(case):
-    return "\n".join("%s = %s;" % (nm, render_body(b, case["cmap"])) for nm, b in case["defs"]) + \
+    return "\n".join("%s = %s;" % (nm, render_body(b, case["cmap"], bound_fn(case))) for nm, b in case["defs"]) + \
         ("   [consts %s]" % case["consts"] if case["consts"] else "") + "   [%s]" % case["style"]
 
 
@@ -149,7 +164,7 @@ def run_discrete(case, monitor, modular=True, only=None, read_names=False):
 
 def rep_of(case):
     return {"monitor": case["monitor"], "defs": [[nm, F.to_proto(b)] for nm, b in case["defs"]], "consts": case["consts"],
-            "cmap": [[k, v] for k, v in case["cmap"].items()], "style": case["style"], "n": case["n"], "data": case["data"],
+            "cmap": [[k, v] for k, v in case["cmap"].items()], "style": case["style"], "n": case["n"], "data": case["data"], "unit_mode": case.get("unit_mode"),
             "spec": spec_text(case), "inlined": "out = " + F.to_text(case["f"])}
 
 
@@ -159,7 +174,7 @@ def case_of_rep(obj):
     allvars = sorted({v for nm in inl for v in F.variables(inl[nm])})
     return {"monitor": obj["monitor"], "defs": defs, "inl": inl, "f": inl["out"], "consts": [tuple(c) for c in obj["consts"]],
             "cmap": {float(k): v for k, v in obj["cmap"]}, "style": obj["style"], "n": obj["n"], "vars": allvars or ["a"],
-            "data": {k: [float(x) for x in v] for k, v in obj["data"].items()}}
+            "data": {k: [float(x) for x in v] for k, v in obj["data"].items()}, "unit_mode": obj.get("unit_mode")}
 
 
 def model_prog(cases):
